@@ -4,6 +4,7 @@ package main
 
 import (
 	"fmt"
+	"os"
 	"strings"
 )
 
@@ -38,6 +39,12 @@ func decString(ds []Dec) string {
 		}
 	}
 	return sb.String()
+}
+
+// WorkItem is a path prefix to explore, with a model of its path condition when one is known.
+type WorkItem struct {
+	Prefix []Dec
+	Model  map[string]uint64
 }
 
 type InputRec struct {
@@ -87,7 +94,7 @@ type Path struct {
 	solver  *Solver
 	inputs  []*InputRec
 	labelN  map[string]int
-	newWork [][]Dec
+	newWork []WorkItem
 	reach   map[string]int
 	unknowns int
 	symbolicObligations int // decisions whose condition was symbolic
@@ -100,10 +107,21 @@ type Path struct {
 	modelHits, modelMisses int
 }
 
-func NewPath(prefix []Dec, s *Solver) *Path {
-	p := &Path{prefix: prefix, solver: s, em: NewEmitter(), labelN: map[string]int{}, reach: map[string]int{}, knownHit: map[string]bool{}}
+func NewPath(w WorkItem, s *Solver) *Path {
+	p := &Path{prefix: w.Prefix, solver: s, em: NewEmitter(), labelN: map[string]int{}, reach: map[string]int{}, knownHit: map[string]bool{}}
+	if w.Model != nil {
+		p.model = map[string]uint64{}
+		for k, v := range w.Model {
+			p.model[k] = v
+		}
+	}
 	s.Reset()
 	return p
+}
+
+func (p *Path) queue(d Dec, model map[string]uint64) {
+	sib := append(append([]Dec(nil), p.trace...), d)
+	p.newWork = append(p.newWork, WorkItem{Prefix: sib, Model: model})
 }
 
 func (p *Path) assert(t *Term) {
@@ -112,6 +130,9 @@ func (p *Path) assert(t *Term) {
 	}
 	if p.model != nil {
 		if v, ok := p.evalUnder(t); !ok || v != 1 {
+			if os.Getenv("GOSYM_DEBUG") != "" {
+				fmt.Fprintf(logw, "model invalidated by assert: ok=%v v=%d term=%s model=%v\n", ok, v, NewEmitter().Ref(t), p.model)
+			}
 			p.setModel(nil)
 		}
 	}
@@ -136,7 +157,7 @@ func (p *Path) check(t *Term) string {
 	p.solver.Send("(pop 1)\n")
 	if r == "unknown" {
 		p.unknowns++
-		if p.solver.dead {
+		if p.solver.Dead() {
 			panic(pathEnd{Outcome{Kind: OutUnsupported, Msg: "solver timeout (watchdog) - inconclusive at this bound"}})
 		}
 	}
@@ -166,6 +187,12 @@ func (p *Path) setModel(m map[string]uint64) {
 
 // checkWithModel is check() that also fetches a model on sat.
 func (p *Path) checkWithModel(t *Term) (string, map[string]uint64) {
+	if t.IsConst() {
+		if t.C == 1 {
+			return "sat", nil
+		}
+		return "unsat", nil
+	}
 	ref := p.em.Ref(t)
 	p.solver.Send(p.em.Flush())
 	p.solver.Send("(push 1)\n(assert " + ref + ")\n")
@@ -177,7 +204,7 @@ func (p *Path) checkWithModel(t *Term) (string, map[string]uint64) {
 	p.solver.Send("(pop 1)\n")
 	if r == "unknown" {
 		p.unknowns++
-		if p.solver.dead {
+		if p.solver.Dead() {
 			panic(pathEnd{Outcome{Kind: OutUnsupported, Msg: "solver timeout (watchdog) - inconclusive at this bound"}})
 		}
 	}
@@ -224,14 +251,13 @@ func (p *Path) Decide(cond *Term) bool {
 		if dir {
 			other = Not(cond)
 		}
-		r := p.check(other)
+		r, om := p.checkWithModel(other)
 		if r == "unsat" {
 			p.trace = append(p.trace, Dec{K: 'f', B: dir})
 			return dir
 		}
 		// both feasible: take the direction the model supports, queue the other
-		sib := append(append([]Dec(nil), p.trace...), Dec{K: 'b', B: !dir})
-		p.newWork = append(p.newWork, sib)
+		p.queue(Dec{K: 'b', B: !dir}, om)
 		p.trace = append(p.trace, Dec{K: 'b', B: dir})
 		if dir {
 			p.assert(cond)
@@ -246,7 +272,7 @@ func (p *Path) Decide(cond *Term) bool {
 		p.trace = append(p.trace, Dec{K: 'f', B: false})
 		return false
 	}
-	rf := p.check(Not(cond))
+	rf, mf := p.checkWithModel(Not(cond))
 	if rf == "unsat" {
 		p.trace = append(p.trace, Dec{K: 'f', B: true})
 		if mt != nil {
@@ -254,8 +280,7 @@ func (p *Path) Decide(cond *Term) bool {
 		}
 		return true
 	}
-	sib := append(append([]Dec(nil), p.trace...), Dec{K: 'b', B: false})
-	p.newWork = append(p.newWork, sib)
+	p.queue(Dec{K: 'b', B: false}, mf)
 	p.trace = append(p.trace, Dec{K: 'b', B: true})
 	p.assert(cond)
 	if mt != nil {
@@ -287,10 +312,9 @@ func (p *Path) Concretize(t *Term) uint64 {
 		// frontier: the cached model gives a feasible value for free
 		if v, ok := p.evalUnder(t); ok {
 			c := &Term{Op: OpConst, Sort: t.Sort, C: v}
-			other := p.check(Not(Eq(t, c)))
+			other, om := p.checkWithModel(Not(Eq(t, c)))
 			if other != "unsat" {
-				sib := append(append([]Dec(nil), p.trace...), Dec{K: 'c', B: false, V: v})
-				p.newWork = append(p.newWork, sib)
+				p.queue(Dec{K: 'c', B: false, V: v}, om)
 			}
 			p.trace = append(p.trace, Dec{K: 'c', B: true, V: v})
 			p.assert(Eq(t, c))
@@ -324,10 +348,9 @@ func (p *Path) Concretize(t *Term) uint64 {
 			panic(pathEnd{Outcome{Kind: OutInternal, Msg: "no model value for concretise"}})
 		}
 		c := &Term{Op: OpConst, Sort: t.Sort, C: v}
-		other := p.check(Not(Eq(t, c)))
+		other, om := p.checkWithModel(Not(Eq(t, c)))
 		if other != "unsat" {
-			sib := append(append([]Dec(nil), p.trace...), Dec{K: 'c', B: false, V: v})
-			p.newWork = append(p.newWork, sib)
+			p.queue(Dec{K: 'c', B: false, V: v}, om)
 		}
 		p.trace = append(p.trace, Dec{K: 'c', B: true, V: v})
 		p.assert(Eq(t, c))
@@ -337,6 +360,9 @@ func (p *Path) Concretize(t *Term) uint64 {
 
 // Model returns the values of all inputs on the current path (nil if the pc is not sat).
 func (p *Path) Model() (map[string]uint64, string) {
+	if p.model != nil {
+		return p.model, "sat"
+	}
 	r := p.solver.Check()
 	if r != "sat" {
 		return nil, r
@@ -358,7 +384,9 @@ func (p *Path) NewInput(label, kind string, s Sort) *InputRec {
 	in := &InputRec{Label: label, Kind: kind, T: Var(name, s)}
 	p.inputs = append(p.inputs, in)
 	if p.model != nil {
-		p.model[name] = 0
+		if _, have := p.model[name]; !have {
+			p.model[name] = 0
+		}
 	}
 	p.em.Ref(in.T)
 	p.solver.Send(p.em.Flush())
